@@ -110,6 +110,14 @@ class RequireWalker(lua.BaseASTWalker):
 
             yield (require_path, use_game_loop, self._tokens[node.start_pos])
 
+        else:
+            # Not a require() call itself: look for require() calls in the
+            # function expression and the arguments, e.g. foo(require("a"))
+            # or require("a").init().
+            for field in node._fields:
+                for t in self._walk(getattr(node, field)):
+                    yield t
+
 
 def _evaluate_require(ast, file_path, package_lua, lua_path=None):
     """Evaluate require() statements in a Lua AST.
